@@ -168,8 +168,14 @@ func (h *BMPPeerHeader) Serialize() ([]byte, error) {
 	}
 	binary.BigEndian.PutUint32(buf[26:30], h.PeerAS)
 	copy(buf[30:34], h.PeerBGPID.AsSlice())
+	// Round to the nearest microsecond: a float64 cannot hold seconds plus
+	// decimal microseconds exactly, and rounding up turned most parsed
+	// timestamps into the next microsecond on every re-serialisation.
 	t1, t2 := math.Modf(h.Timestamp)
-	t2 = math.Ceil(t2 * math.Pow10(6))
+	t2 = math.Round(t2 * math.Pow10(6))
+	if t2 >= math.Pow10(6) {
+		t1, t2 = t1+1, t2-math.Pow10(6)
+	}
 	binary.BigEndian.PutUint32(buf[34:38], uint32(t1))
 	binary.BigEndian.PutUint32(buf[38:42], uint32(t2))
 	return buf, nil
